@@ -14,6 +14,8 @@ import numpy as np
 
 from ..tlc import TLCError
 
+# violation keys of behaviour modelled beyond the statement of the property (reported, never an alarm)
+BEYOND = ("from-parities:", "concatenate:")
 INV = ["MechanismEqualsDefinition", "ConstantContributesCoefficient", "CountsSumToShots", "TalliesSumToShots", "MeanFromTallies", "TallyValueIsMean", "PrecisionBounded", "EmitStats"]
 
 
